@@ -65,6 +65,8 @@ def run(model: Model, rep: Report, tier: str) -> None:
     sa = SetAlg(rewrite=rewriter(graph_rewrite, _regular_rewrite))
     n = var("%n")
     r5_helpers(model, rep)
+    from . import c14 as _c14
+    _c14.intervened_ancestor_rows(model, rep, "R5.0")
     r5_1_ref(model, rep)
     r5_6(model, rep)
     c06.r6_2(model, rep)
